@@ -113,6 +113,7 @@ vnacal_new_t *vnacal_new_alloc(vnacal_t *vcp, vnacal_type_t type,
     (void)memset((void *)vnp, 0, sizeof(vnacal_new_t));
     vnp->vn_magic = VN_MAGIC;
     vnp->vn_vcp = vcp;
+    insque((void *)&vnp->vn_next, (void *)&vcp->vc_new_head);
     _vnacal_layout(&vnp->vn_layout, type, m_rows, m_columns);
     vnp->vn_frequencies = frequencies;
     if ((vnp->vn_frequency_vector = calloc(frequencies,
@@ -162,11 +163,6 @@ vnacal_new_t *vnacal_new_alloc(vnacal_t *vcp, vnacal_type_t type,
     vnp->vn_measurement_anchor = &vnp->vn_measurement_list;
     vnp->vn_calibration = NULL;
     vnp->vn_rms_error_vector = NULL;
-
-    /*
-     * Link this structure onto the vnacal_t structure.
-     */
-    insque((void *)&vnp->vn_next, (void *)&vcp->vc_new_head);
 
     return vnp;
 }
@@ -272,7 +268,8 @@ void vnacal_new_free(vnacal_new_t *vnp)
 	remque((void *)&vnp->vn_next);
 	_vnacal_calibration_free(vnp->vn_calibration);
 
-	for (int i = 0; i < vnp->vn_systems; ++i) {
+	for (int i = 0; vnp->vn_system_vector != NULL &&
+		i < vnp->vn_systems; ++i) {
 	    vnacal_new_system_t *vnsp = &vnp->vn_system_vector[i];
 
 	    while (vnsp->vns_equation_list != NULL) {
